@@ -44,7 +44,7 @@ func c28TmName(s string) (ok bool) {
 }
 
 // c28KnownBad is exactly the class of lexer-admitted names for which Produce is known to return "" or "_"
-// (finding 8 of DESIGN §6): '' and "", and unquoted names made of '_' and '-' only, except in UpperCase
+// (finding 8 of DESIGN §6): ” and "", and unquoted names made of '_' and '-' only, except in UpperCase
 // with two or more underscores.
 func c28KnownBad(name string, style ident.Style) bool {
 	if name == "''" || name == `""` {
@@ -237,7 +237,10 @@ func (c *Ctx) c28Ident(name string, findings bool, bucket string) {
 		c.Case(line, ans, key)
 		if tmName && !panicked && !c28ValidIdent(id) {
 			if c28KnownBad(name, st) && !findings {
-				c.Count("known-bad class (not flagged)")
+				c.Count("known-bad class (reported as known finding)")
+				if c.Dist["known-bad class (reported as known finding)"] <= 3 {
+					c.Violate(fmt.Sprintf("ident.Produce(%q, style %d) = %q: the tm lexer admits the name, the result is not a non-blank identifier [C28-degenerate-name]", name, int(st), id), line)
+				}
 				continue
 			}
 			c.Violate(fmt.Sprintf("ident.Produce(%q, style %d) = %q: the tm lexer admits the name, the result is not a non-blank identifier valid in Go, C++ and TypeScript", name, int(st), id), line)
